@@ -32,7 +32,9 @@ def toGrayPure (n : Nat) : Nat := n ^^^ (n >>> 1)
 def fromGrayPure (g : Nat) : Nat := fromGrayLoop (g + 1) g g
 
 /-! ## bits <-> naturals, MSB first -/
-def bitsToNat (bits : List Bool) : Nat := bits.foldl (fun a x => 2 * a + (if x then 1 else 0)) 0
+def bitsToNat : List Bool → Nat
+  | [] => 0
+  | x :: xs => (if x then 2 ^ xs.length else 0) + bitsToNat xs
 def natToBits : Nat → Nat → List Bool
   | 0, _ => []
   | b+1, n => ((n >>> b) % 2 == 1) :: natToBits b n
@@ -44,8 +46,10 @@ def groups (b : Nat) : Nat → List Bool → List (List Bool)
 /-! ## mapping -/
 /-- last index whose label is `lab` (the Python loops assign `symbols[mask] = constellation[i]` for
 increasing `i`, so the last match wins); index 0 if none -/
-def idxByLabel (t : Table) (lab : Nat) : Nat :=
-  (t.pts.zipIdx.foldl (fun acc (p : Pt × Nat) => if p.1.lab = lab then p.2 else acc) 0)
+def idxFrom (lab : Nat) : List Pt → Nat → Nat → Nat
+  | [], _, acc => acc
+  | p :: ps, i, acc => idxFrom lab ps (i + 1) (if p.lab = lab then i else acc)
+def idxByLabel (t : Table) (lab : Nat) : Nat := idxFrom lab t.pts 0 0
 
 /-- symbol indices for a bit sequence, `none` when the length is not a multiple of `b` -/
 def modulate (t : Table) (byLabel : Bool) (bits : List Bool) : Option (List Nat) :=
